@@ -80,6 +80,8 @@ impl FeoxStore {
         let read_only = matches!(&open_mode, OpenMode::ReadOnly(_));
         // Initialize hash table with configured capacity
         let hasher = RandomState::new();
+        #[cfg(feoxdb_verif)]
+        let hasher = crate::verif::random_state("store.hasher");
         let hash_table = HashMap::with_capacity_and_hasher(1 << config.hash_bits, hasher.clone());
 
         let free_space = Arc::new(RwLock::new(FreeSpaceManager::new()));
@@ -145,6 +147,8 @@ impl FeoxStore {
                     store.format_version,
                 );
                 let num_workers = (num_cpus::get() / 2).max(1);
+                #[cfg(feoxdb_verif)]
+                let num_workers = crate::verif::cpus("store.workers", num_workers);
                 write_buffer.start_workers(num_workers);
                 store.write_buffer = Some(Arc::new(write_buffer));
             }
